@@ -104,8 +104,12 @@ fn install_timeouts(pool: &[u8]) {
             g.1 += 1;
             if FAIR_TIMEOUTS.with(|f| f.get()) {
                 // fair suffix: a deterministic pseudo-random draw per call (breaks symmetric timeouts)
-                let h = crate::store::mix_u64(crate::store::mix_u64(0x9e3779b97f4a7c15, i as u64), id);
-                return Some(min + (h as usize >> 7) % (max - min));
+                // (splitmix64 finaliser: every output bit depends on every input bit)
+                let mut h = (i as u64).wrapping_mul(0x9e3779b97f4a7c15) ^ id.wrapping_mul(0xbf58476d1ce4e5b9);
+                h = (h ^ (h >> 30)).wrapping_mul(0xbf58476d1ce4e5b9);
+                h = (h ^ (h >> 27)).wrapping_mul(0x94d049bb133111eb);
+                h ^= h >> 31;
+                return Some(min + (h >> 33) as usize % (max - min));
             }
             let b = g.0[i % g.0.len()] as usize;
             // mix the counter in so that a short pool does not cycle identically
@@ -2001,6 +2005,24 @@ impl World {
             if self.dead {
                 return;
             }
+            // Raft's liveness rests on randomised timeouts: "eventually one node times out alone". The first
+            // 2*bound rounds draw pseudo-random timeouts; after that the assumption is made explicit - each
+            // running node in turn gets the shortest timeout and everybody else the longest, for `bound` rounds.
+            // Only a state that stays stuck under every such schedule is reported.
+            if r >= 2 * bound && (r - 2 * bound) % bound == 0 {
+                // the nodes with the most complete logs first: they are the ones that can win
+                let mut ups: Vec<usize> = (0..NN).filter(|i| self.nodes[*i].up()).collect();
+                ups.sort_by_key(|i| {
+                    let l = &self.nodes[*i].rn.as_ref().unwrap().raft.raft_log;
+                    (std::cmp::Reverse((l.last_term(), l.last_index())), *i)
+                });
+                if !ups.is_empty() {
+                    let fav = ups[((r - 2 * bound) / bound) % ups.len()];
+                    for ni in 0..NN {
+                        pin_timeout((ni + 1) as u64, Some(if ni == fav { 0 } else { et - 1 }));
+                    }
+                }
+            }
             self.suffix_round(&mut probes, r + 1);
             if self.dead {
                 return;
@@ -2014,6 +2036,9 @@ impl World {
             }
         }
         set_fair_timeouts(false);
+        for ni in 0..NN {
+            pin_timeout((ni + 1) as u64, None);
+        }
         match ok_at {
             Some(r) => self.mon.note_liveness_result(r, bound),
             None => {
